@@ -11,7 +11,7 @@
      cuts P inp cs               inp = piece_1 ++ piece_2 ++ ..., |piece_i| = |chunk_i|, and P piece_i rest_i chunk_i
                                  holds for every chunk returned with err == nil (every non-final chunk) *)
 From Coq Require Import List NArith ZArith Bool.
-From Verif Require Import Common.GoStr C26.Model C26.Spec C26.Proof C26.Proof2 C26.Proof3.
+From Verif Require Import Common.GoStr C26.Model C26.Spec C26.Proof C26.Proof2 C26.Proof3 C26.Proof4.
 Import ListNotations.
 Open Scope Z_scope.
 
@@ -84,6 +84,65 @@ Theorem C26_never_inside : forall inp allc v1 cs st,
 Proof. exact never_inside. Qed.
 Print Assumptions C26_never_inside.
 
+(* ---- continuation lines ---- *)
+(* ends_in_op r d L after (Spec.v): L = a ++ op :: t, op one of ! % & * , < = > ^ | / + - met in code at bracket
+   depth 0, not starting a comment, + / - not glued to a preceding + or -, and t only white space and comments.
+   For EVERY line, wherever machine and classifier correspond at its start (which C26_mode_tracks_lexer and
+   C26_never_inside establish for every line of every stream): such a line leaves ignorenl set and the
+   end-of-line decision does not stop *)
+Theorem C26_continuation_kept_line : forall L rest s p r d s1 acc1 o,
+  line_ok L -> R (s_m s) r (peek (L ++ rest)) -> s_m s <> mHash -> s_m s <> mPlus -> s_m s <> mMinus ->
+  s_paren s = d -> bare_hash r (L ++ rest) = false ->
+  ends_in_op r d L (peek rest) ->
+  run_line s p [] L = Some (s1, acc1) ->
+  s_ign s1 = true /\ may_stop o (eol_reset_comment s1) = false.
+Proof. exact line_op_ign. Qed.
+Print Assumptions C26_continuation_kept_line.
+
+(* whole stream: every non-final chunk is a sequence of complete lines whose last line does not end in a binary
+   operator or comma *)
+Theorem C26_continuation_kept : forall inp allc v1 cs st,
+  bare_hash RCode inp = false -> read_stream allc v1 (split_nl inp) = (cs, st) ->
+  cuts (fun piece rest _ =>
+          exists lines L, piece = concat lines ++ L /\ Forall line_ok lines /\ line_ok L /\
+            let '(r, d) := rrun RCode 0 (concat lines) (peek (L ++ rest)) in ~ ends_in_op r d L (peek rest)) inp cs.
+Proof. exact continuation_kept. Qed.
+Print Assumptions C26_continuation_kept.
+
+(* ... nor (up to white space and comments) in an opening bracket met in code at depth >= 0 *)
+Theorem C26_continuation_kept_bracket : forall inp allc v1 cs st,
+  bare_hash RCode inp = false -> read_stream allc v1 (split_nl inp) = (cs, st) ->
+  cuts (fun piece rest _ =>
+          forall a op t d0, piece = a ++ op :: t -> classify op = COpen ->
+            rrun RCode 0 a (Some COpen) = (RCode, d0) -> 0 <= d0 -> quiet RCode t (peek rest) = true -> False) inp cs.
+Proof. exact bracket_kept. Qed.
+Print Assumptions C26_continuation_kept_bracket.
+
+(* the depth premise is needed: after a stray closing bracket the counter is negative and "} (" is cut *)
+Theorem C26_continuation_negative_depth_refuted :
+  exists inp, map (fun c => length (c_src c)) (fst (read_stream false false (split_nl inp))) = [4%nat; 2%nat]
+              /\ inp = [125; 32; 40; 10; 41; 10]%N.
+Proof. eexists. split; [|reflexivity]. vm_compute. reflexivity. Qed.
+Print Assumptions C26_continuation_negative_depth_refuted.
+
+(* keyword rule, PARTIAL: proved = wherever a chunk was cut, lastIsKeywordIgnoresNl (called with the whole
+   buffer and buffer-relative offsets, fix C26-1) had answered false.  Missing = that the two offsets are those
+   of the first and last token of the chunk (checked by the correspondence on firstToken and by oracle O5). *)
+Theorem C26_keyword_continuation_partial : forall inp allc v1 cs st,
+  bare_hash RCode inp = false -> read_stream allc v1 (split_nl inp) = (cs, st) ->
+  cuts (fun _ _ c => exists first last, (0 <=? first) && lastIsKw v1 (c_src c) first last = false) inp cs.
+Proof. exact keyword_checked. Qed.
+Print Assumptions C26_keyword_continuation_partial.
+
+(* the call as it was before fix C26-1 (last line only, buffer-relative offsets 5 and 14) misses the keyword
+   on DESIGN section 7 #4, the fixed call finds it *)
+Theorem C26_keyword_index_old_call_refuted :
+  let buf := [32;32;32;32;32;102;40;10;49;41;59;32;102;111;114;10]%N in
+  let lastline := [49;41;59;32;102;111;114;10]%N in
+  lastIsKw false lastline 5 14 = false /\ lastIsKw false buf 5 14 = true.
+Proof. vm_compute. split; reflexivity. Qed.
+Print Assumptions C26_keyword_index_old_call_refuted.
+
 (* ---- the hypotheses are satisfiable on non-trivial values ---- *)
 (* x := `a<NL>b` + 1<NL>/* c */ y()<NL> : two chunks, the first spans the raw string *)
 Example C26_ex_two_chunks :
@@ -98,3 +157,13 @@ Example C26_ex_keyword_index :
   map (fun c => length (c_src c)) (fst (read_stream true false (split_nl
      [32;32;32;32;32;102;40;10;49;41;59;32;102;111;114;10;123;32;98;114;101;97;107;32;125;10]%N))) = [26%nat].
 Proof. vm_compute. reflexivity. Qed.
+
+(* ends_in_op is satisfiable: "y = x +" followed by a comment; the keyword test on every keyword-ending line *)
+Example C26_ex_ends_in_op : ends_in_op RCode 0 [121;32;61;32;120;32;43;32;47;47;99;10]%N None.
+Proof.
+  exists [121;32;61;32;120;32]%N, 43%N, [32;47;47;99;10]%N. vm_compute. repeat split; auto.
+Qed.
+Example C26_ex_keywords :
+  forallb (fun w => lastIsKw false ([120; 59; 32]%N ++ w ++ [32; 10]%N) 0 (Z.of_nat (length w) + 2)) kw_list = true
+  /\ lastIsKw false [120;32;114;101;116;117;114;110;10]%N 0 7 = false.
+Proof. vm_compute. split; reflexivity. Qed.
